@@ -648,16 +648,16 @@ func (r *fhRun) render(s fhSnap) string {
 	var cs, ms []string
 	for k, v := range s.sums {
 		if st, ok := r.dict[v]; ok {
-			cs = append(cs, hx(k)+"="+st)
+			cs = append(cs, hx(r.modelKey(k))+"="+st)
 		} else {
-			cs = append(cs, hx(k)+"=?"+v)
+			cs = append(cs, hx(r.modelKey(k))+"=?"+v)
 		}
 	}
 	sort.Strings(cs)
 	out = append(out, cs...)
 	out = append(out, ";", "M")
 	for k, v := range s.marks {
-		ms = append(ms, fmt.Sprintf("%s=%d", hx(k), v))
+		ms = append(ms, fmt.Sprintf("%s=%d", hx(r.modelKey(k)), v))
 	}
 	sort.Strings(ms)
 	out = append(out, ms...)
@@ -955,7 +955,7 @@ func (r *fhRun) run(only map[int]bool) {
 		// else the marker (`marker`), else nothing (`none`)
 		hasMarker, vouch := "0", "none"
 		{
-			mv, okm := prev.marks[fhNorm(t.Name)]
+			mv, okm := prev.marks[fhStateName(t.Name)]
 			if okm {
 				hasMarker = "1"
 			}
@@ -1023,9 +1023,9 @@ func (r *fhRun) run(only map[int]bool) {
 		}
 		facts := func(kind string) string {
 			w, wmode, wexit, wtask, wskip := "-", "-", "-", "-", "0"
-			wk := "C" + fhNorm(fhDisplay(t))
+			wk := "C" + fhStateName(fhDisplay(t))
 			if method == "timestamp" {
-				wk = "M" + fhNorm(t.Name)
+				wk = "M" + fhStateName(t.Name)
 			}
 			if j, ok := wprev[wk]; ok {
 				w, wmode, wexit, wtask = strconv.Itoa(j), r.d.Steps[j].Mode, r.obsExit[j], strconv.Itoa(r.d.Steps[j].Task%len(r.d.Tasks))
@@ -1104,6 +1104,30 @@ func fhDisplay(t fhTask) string {
 
 // the harness's own copy of normalizeFilename, only used to find which stored file belongs
 // to a task when attributing a monitor violation
+// the harness's own copy of stateFilename (fix N): the normalised name, plus — when normalisation
+// changed the name — "-" and 16 hex digits of xxh3 of the original name
+func fhStateName(n string) string {
+	if nn := fhNorm(n); nn != n {
+		return fmt.Sprintf("%s-%016x", nn, xxh3.HashString(n))
+	}
+	return n
+}
+
+// the MODEL's key for a state file: the model's tag is the name itself (`stateKey`: the hash is
+// idealised as injective), so the file of a name the harness generated — recognised by
+// recomputing xxh3 of every task name and label of the case — is rendered as
+// "<normalised>-<name>"; any other file name (a tree without fix N) is rendered as it is.
+func (r *fhRun) modelKey(file string) string {
+	for _, t := range r.d.Tasks {
+		for _, n := range []string{t.Name, t.Label} {
+			if n != "" && fhNorm(n) != n && fhStateName(n) == file {
+				return fhNorm(n) + "-" + n
+			}
+		}
+	}
+	return file
+}
+
 func fhNorm(s string) string {
 	var sb strings.Builder
 	for _, c := range s {
